@@ -40,12 +40,62 @@ def stream(rng, i):
     return c07.gen_case(rng, i // 6), True
 
 
+ILLEGAL_QUERIES = [
+    'select distinct count a1, COUNT(*) group by a1', 'select distinct count MAX(a2)', 'select top 2 distinct count a1, MIN(a2) group by a1', 'select distinct a1, COUNT(*) group by a1',
+    'select distinct MAX(a2)', 'select a1, COUNT(*) group by a1 order by a1', 'select MAX(a1) order by a1', 'select top 1 SUM(a3) order by a2 desc', 'update a1 = a2 order by a1',
+    'update a1 = a2 group by a1', 'select a1, UNNEST(a2), UNNEST(a3)', 'select * where a1 = 1', 'select top x a1', 'select a1 limit -', 'select a1 join b on a1 < b1',
+    'select a1 join b on a1 == b1 or a2 == b2', 'select a1 join b on a9x == b1', 'select', 'select a1 order by', 'select a1 join b', 'select a1 join b on',
+    'select a1, a2 group by', 'select * except', 'select * except a1,', 'update', 'update set', 'select a1 where', 'select a1 with (nonsense)', 'select a1 with (header) extra',
+    'select distinct count', 'select top 3', 'select a1 strict left join b on a1 == b1 where', 'select a1 left join b on NR == bNR order by', 'select COUNT(*) where a1 = "x"',
+    'select a1 group by a1 group by a2', 'select a1 order by a1 order by a2', 'select a1 where a1 where a2', 'select a1 limit 1 limit 2', 'select a1 join b on a1 == b1 join b on a2 == b2',
+]
+
+
+def leg_illegal(res, spec):
+    """Clause combinations and malformed texts that the reference semantics reject: both engines must fail, with the same error class."""
+    from ..js import bridge
+    from ..monitors import boundary
+    ns = env.import_rbql()
+    node = bridge.Node.start()
+    if node is None:
+        res.inconclusive.append('node is not available: C19 cannot be decided')
+        return
+    A = [['a', '1', '5'], ['b', '2', '6'], ['a', '3', '7']]
+    B = [['a', 'p'], ['b', 'q']]
+    try:
+        variants = []
+        for q in ILLEGAL_QUERIES:
+            variants.append(q)
+            variants.append(q.upper().replace('A1', 'a1').replace('A2', 'a2').replace('A3', 'a3').replace('B1', 'b1').replace('B2', 'b2').replace('BNR', 'bNR').replace('A9X', 'a9x').replace(' B ', ' b ').replace('NOSUCH', 'nosuch').replace('"X"', '"x"'))
+        reqs = [{'query': q, 'input': [list(r) for r in A], 'join': [list(r) for r in B], 'input_cols': None, 'join_cols': None} for q in variants]
+        outs = node.call({'op': 'query_batch', 'cases': reqs})['results']
+        for q, o in zip(variants, outs):
+            py = boundary.run_query_table(ns, q, [list(r) for r in A], [list(r) for r in B])
+            jcls = common.js_error_class(o['error']) if o['error'] else None
+            res.evaluations += 1
+            res.count('illegal_query_runs')
+            res.distinct_disjoint += 1
+            case = {'leg': 'illegal', 'query_text': q, 'engine': 'js'}
+            if py['error'] is None:
+                res.count('illegal_query_accepted_by_python')      # not a JS matter: C14 pins the Python side
+                continue
+            if jcls is None:
+                res.violation('js:illegal-query-accepted', '[js] %s returns %r ; the Python engine raises %s: %s' % (q, o['out'][:4], py['error'], (py['error_msg'] or '')[:100]), case)
+            elif jcls != py['error'] and not (py['error'] == 'syntax' or jcls == 'syntax'):
+                res.violation('js:illegal-query-error-class-differs', '[js] %s raises %s (%s) ; the Python engine raises %s (%s)' % (q, jcls, o['error']['msg'][:80], py['error'], (py['error_msg'] or '')[:80]), case)
+        res.sample({'leg': 'illegal', 'queries': len(variants), 'example': variants[0]})
+    finally:
+        node.close()
+
+
 def plan(tier, seed):
     k = NSHARDS[tier]
-    return [{'k': k, 'i': i, 'n': CASES[tier] // k} for i in range(k)]
+    return [{'k': k, 'i': i, 'n': CASES[tier] // k} for i in range(k)] + [{'kind': 'illegal'}]
 
 
 def run_shard(spec, res):
+    if spec.get('kind') == 'illegal':
+        return leg_illegal(res, spec)
     env.import_rbql()
     rng = random.Random(spec['seed'] * 122949829 + spec['i'])
     js = common.JsLeg(res, PROPERTY, classify, check_sources=True)
@@ -82,8 +132,8 @@ def run_shard(spec, res):
 def summarize(tier, seed, m):
     shapes = sorted(k[6:] for k in m['counters'] if k.startswith('shape:'))
     return {
-        'rule': 'the generators of C01 (select / where / stars / EXCEPT / UNNEST / joins), C02 (ORDER BY / DISTINCT / DISTINCT COUNT / TOP / LIMIT), C03 (aggregates, neutral arguments), C04 (joins x downstream shapes), C05 (UPDATE) and C07 (header naming with user functions) restricted to the language-neutral expression vocabulary and rendered into JS syntax; every case executed by the node driver on the working tree with deep JSON snapshots, row identity and a scribble test of the input and join arrays; compared with the reference (rows by value and order, header, error class and record number). distinct_nontrivial = distinct (JS query, tables) with a non-empty reference result or a predicted error.',
-        'required': ['js_cases', 'predicted_errors', 'cases_with_header_modifier'] + ['family:%d' % k for k in range(6)],
+        'rule': 'the generators of C01 (select / where / stars / EXCEPT / UNNEST / joins), C02 (ORDER BY / DISTINCT / DISTINCT COUNT / TOP / LIMIT), C03 (aggregates, neutral arguments), C04 (joins x downstream shapes), C05 (UPDATE) and C07 (header naming with user functions) restricted to the language-neutral expression vocabulary and rendered into JS syntax; every case executed by the node driver on the working tree with deep JSON snapshots, row identity and a scribble test of the input and join arrays; compared with the reference (rows by value and order, header, error class and record number). an illegal-combinations leg: 39 clause combinations and malformed texts the reference semantics reject (DISTINCT / DISTINCT COUNT / ORDER BY with aggregates, UPDATE with ORDER BY / GROUP BY, two UNNESTs, assignment in WHERE, non-equality and OR join conditions, dangling keywords, repeated clauses, unknown modifiers), lower- and upper-case, must fail on the JS engine with the class the Python engine reports; distinct_nontrivial = distinct (JS query, tables) with a non-empty reference result or a predicted error.',
+        'required': ['js_cases', 'predicted_errors', 'cases_with_header_modifier', 'illegal_query_runs'] + ['family:%d' % k for k in range(6)],
         'extra': {'shapes_seen': shapes},
         'assumptions': ['rv/model/refsem.py; anything where the host languages legitimately differ (null stringification, string <-> number coercion, integer division, negative modulo, non-BMP ordering) is outside the vocabulary'],
     }
